@@ -54,7 +54,7 @@ func bwToStr(n int, ws []byte) (r string, p string) {
 			p = fmt.Sprint("panic: ", e)
 		}
 	}()
-	return bitword.BitWord[n].ToStr(ws), ""
+	return bitword.BitWord[n].ToStr(gen.DirtyBytes(ws)), "" // a window into a larger, non-zero buffer
 }
 
 func bwGet(n int, s string, i int) (r byte, p string) {
